@@ -599,6 +599,14 @@ func vfmStacks() []string {
 	return strings.Split(string(buf), "\n\n")
 }
 
+var vfmMidStep = []string{
+	"(*contactRequestsManager).SendContactRequest(",
+	"(*contactRequestsManager).handleIncomingRequest(",
+	"(*vfmWorld).serve.func",
+	"openMetadataEntry(",
+	"(*MetadataStore).attributeSignAndAddEvent(",
+}
+
 // busy: some goroutine other than the caller is running / runnable / in a syscall;
 // sleeping: a goroutine of the manager / swiper sits in time.Sleep (the one-second pauses)
 func vfmGoroutineStates() (busy bool, sleeping bool) {
@@ -618,6 +626,19 @@ func vfmGoroutineStates() (busy bool, sleeping bool) {
 		st := head[a+1 : b]
 		if k := strings.IndexByte(st, ','); k >= 0 {
 			st = st[:k]
+		}
+		// a goroutine of the system under test in the middle of a step counts as busy even when it is parked
+		// for a moment (a log append waits on other goroutines, timers of the IPFS mock, ...)
+		for _, mark := range vfmMidStep {
+			if strings.Contains(g, mark) {
+				busy = true
+			}
+		}
+		if strings.Contains(g, "(*contactRequestsManager).metadataWatcher") && !strings.Contains(g, "vfmBus).Subscribe") {
+			// the watcher is idle only in its select: any deeper frame is a handler or the start-up
+			if strings.Count(g, "(*contactRequestsManager).") > 1 {
+				busy = true
+			}
 		}
 		switch st {
 		case "syscall":
@@ -923,8 +944,15 @@ func (w *vfmWorld) incoming(cn, kind string) string {
 		vfInfra("peer cannot connect to the account: %v", err)
 	}
 	before := atomic.LoadInt64(&w.ipfs.handled)
+	// (with a single protocol libp2p negotiates lazily when the peer store remembers - from an earlier
+	// script on the same hosts - that the account served the protocol: the refusal then only shows in
+	// the first read; whether the account serves the protocol is read from its own mux)
+	served := w.ipfs.hasHandler()
 	s, err := pr.h.NewStream(ctx, a.ID(), contactRequestV1)
 	if err != nil {
+		if served {
+			vfInfra("stream to a registered handler failed: %v", err)
+		}
 		return "nohandler"
 	}
 	defer s.Reset()
@@ -935,6 +963,9 @@ func (w *vfmWorld) incoming(cn, kind string) string {
 		vfInfra("own key: %v", err)
 	}
 	if err := handshake.RequestUsingReaderWriter(ctx, zap.NewNop(), reader, writer, pr.sk, apk); err != nil {
+		if !served {
+			return "nohandler"
+		}
 		return "hsfail"
 	}
 	if err := writer.WriteMsg(&protocoltypes.ShareableContact{Pk: pr.c.raw, PublicRendezvousSeed: pr.c.seed, Metadata: []byte("meta-" + pr.c.name)}); err != nil {
